@@ -23,6 +23,8 @@ using y2::detail::method_info;
 template<class P>
 std::string glue_write_static_offsets();
 std::string glue_encode(const generic_compiler& c, const std::string& policy);
+template<class P>
+std::string glue_fwd_policy(bool via_wrapper);
 
 // ---------------------------------------------------------------------------
 // shapes
@@ -1413,6 +1415,9 @@ struct World : IWorld {
     }
     std::string encode(const generic_compiler& c) override {
         return glue_encode(c, name_);
+    }
+    std::string forward_declarations_of_methods(bool via_wrapper) override {
+        return glue_fwd_policy<P>(via_wrapper);
     }
 };
 
